@@ -191,8 +191,11 @@ def run_pg(tier, seed, corpus=None, histories=None):
         res["cached"] = True
         return res
     shutil.rmtree(d, ignore_errors=True)
-    for old in sorted(glob.glob(os.path.join(CACHE, "pgrun", "*")), key=os.path.getmtime)[:-3]:
-        shutil.rmtree(old, ignore_errors=True)
+    # keep the cache small, but never touch a directory another run may still be using (concurrent checks share it)
+    olds = [x for x in glob.glob(os.path.join(CACHE, "pgrun", "*")) if os.path.isdir(x)]
+    for old in sorted(olds, key=os.path.getmtime)[:-8]:
+        if time.time() - os.path.getmtime(old) > 3 * 3600:
+            shutil.rmtree(old, ignore_errors=True)
     os.makedirs(d)
     t0 = time.time()
     rc, out, _ = vflib.sh([binp, "gen", "--seed", str(seed), "--histories", str(sz["histories"]), "--steps", str(sz["steps"]),
